@@ -10,6 +10,7 @@ import asyncio, io, json, logging, os, re, tempfile, traceback, urllib.parse, zl
 from .common import vloop
 from .common.codec import hx, unhx
 from .common.c02pipe import make_connector
+from .common import c02flow
 
 PROPERTY = "C02"
 LEAN_MODULES = ["AioProps.C02", "AioProps.C02Chunked"]
@@ -35,8 +36,13 @@ THEOREMS = [
     "Aio.Http.chunkedLoop_frame",
     "Aio.Http.payloadFeed_encodeChunks",
     "Aio.C02.response_roundtrip_chunked",
+    "Aio.C02.failed_source_no_terminator",
 ]
-RULE = ("one case = one HTTP exchange through the public APIs followed by a probe request on the same session. "
+RULE = ("(flow scenarios, run first: small read buffers on the receiving side x chunked/Content-Length bodies above the high-water "
+        "mark x segmentations cutting chunks mid-data (targeted: pause in the middle of a chunk, rest of the message in one read; random "
+        "k-byte / cut / random segments) x incremental consumers with sleeps, both directions; sock_read timer with a consumer away "
+        "longer than the timeout while aiohttp paused the transport; uploads whose async-generator / file-like source raises part-way, "
+        "chunked and Content-Length.) one case = one HTTP exchange through the public APIs followed by a probe request on the same session. "
         "Grammar: session version {1.1,1.0} x connector force_close x method {GET,HEAD,POST,PUT,PATCH,DELETE,OPTIONS} x URL shape "
         "(plain, nested, query, percent-encoded, fragment) x header sets (0-3 X- headers incl. repeated names, obs-text, cookies) x "
         "request body kind {none,bytes,bytearray,str,urlencoded FormData,multipart FormData,async generator,BytesIO,JSON} x size in "
@@ -50,6 +56,12 @@ RULE = ("one case = one HTTP exchange through the public APIs followed by a prob
         "compress, keep-alive, wire framing, receiver's framing view and close decision) and with the shared parser model run on "
         "the recorded wire bytes. non-trivial = the exchange put a request on the wire or was refused by the API; distinct by case.")
 TRUSTED_BASE = [
+    "flow control, the sock_read timer and failing upload sources (harness/common/c02flow.py) are ORACLE-ONLY scenarios on the real "
+    "objects: the StreamReader high/low-water marks, transport pause/resume, HttpPayloadParser's pause/pending-input states and "
+    "ResponseHandler's read timer are not in the Lean model (the body parser's pause states belong to C09); only the ending of "
+    "ClientRequest._write_bytes (source failed => no write_eof) is modelled as a decision table and compared",
+    "the pipe transport honours pause_reading/resume_reading on the reading side; the writing side is always writable (write-side "
+    "back-pressure, drain()) is not exercised",
     "two behaviour flags of the model are probed from the source on every run and written to Generated/C02.lean "
     "(writerChunksWhenNotNone: ClientRequest(chunked=False)._create_writer().chunked; closeDelimitedClearsKeepAlive: resp.keep_alive "
     "after StreamResponse.prepare() for an HTTP/1.0 keep-alive request): the theorems are proved for every value of both flags",
@@ -66,6 +78,11 @@ TRUSTED_BASE = [
     "(their output is taken as 'what was sent')",
 ]
 ASSUMPTIONS = [
+    "body-never-completes signatures carry where the stream stood at the reader's last pause request (pause-mid-chunk / "
+    "pause-at-chunk-boundary): the boundary variant is a known finding of the unchanged tree (C02-F26a/b), the mid-chunk variant is not",
+    "flow scenarios: read_bufsize in {256,1024,4096} on the receiving side, bodies 1.5x-12x the high-water mark, consumers reading "
+    "incrementally with virtual-time sleeps; timer scenarios count an exchange as healthy when the server had written every byte "
+    "before the timeout fired; a failed upload is one whose body source raised before yielding everything",
     "the direct oracle judges only API-admissible exchanges; inadmissible ones (user-supplied framing headers, invalid compress, "
     "untruthful Content-Length) are generated with low probability and only compared with the model",
     "CONNECT and protocol upgrades (101) are outside the generated grammar and excluded by hypothesis in the theorems",
@@ -574,6 +591,16 @@ def direct_oracle(ctx, case, obs):
     probe_ok = not pr.get("exc") and pr.get("status") == 200 and pr.get("body") == b"probe-ok"
     exp_req_body = obs.get("req_expected_body")
 
+    # ---- 0'. chunked=True on a GET-class request without data (known root cause F22b): the terminator is written
+    #          without a Transfer-Encoding header — or, with expect100, is never written because the exchange dies first
+    if rq.get("chunked") is True and rq["body"]["kind"] == "none" and method in ("GET", "HEAD", "OPTIONS", "TRACE"):
+        healthy = (len(main_seen) == 1 and "exc" not in cli and probe_ok
+                   and not any(e.startswith("Bad") for e in obs.get("srv_errs", [])))
+        if not healthy:
+            V("request-wire-desync/chunked-terminator-without-transfer-encoding/chunked-true-without-data",
+              f"{method} with chunked=True and no data (expect100={bool(rq.get('expect100'))}): handler saw {len(main_seen)} request(s), "
+              f"caller got {cli.get('status', cli.get('exc'))}, probe {pr.get('status', pr.get('exc'))}; client wire ends {wires[0][0][-12:] if wires else b''!r}")
+            return
     # ---- 1. the request on the wire: exactly the request (per its own framing headers), then at most the probe
     if wires:
         cw = wires[0][0]
@@ -1304,7 +1331,11 @@ def _check(ctx):
     rng = ctx.rng
     with tempfile.TemporaryDirectory(prefix="c02-") as tmpdir:
         make_files(tmpdir)
-        cases = corpus_cases()
+        # flow control / sock_read timer / failing upload sources (oracle + the `_write_bytes` decision table)
+        fcases = c02flow.check(ctx, lambda: ctx.time_left() is not None and ctx.time_left() < 30,
+                               extra=[c for c in corpus_cases() if c.get("kind") in c02flow.KINDS])
+        compare_upfail(ctx, fcases)
+        cases = [c for c in corpus_cases() if c.get("kind") not in c02flow.KINDS]
         cases += systematic_cases(ctx)
         n = 700 if ctx.quick else 12000
         for i in range(n):
@@ -1416,7 +1447,32 @@ def single_cut_cases(ctx, tmpdir):
     return out
 
 
+def compare_upfail(ctx, fcases):
+    """`ClientRequest._write_bytes` ending vs Aio.C02.writeBytesEnd on the chunked uploads with a failing source"""
+    lines, impl = [], []
+    for case, obs in fcases:
+        if case["kind"] != "upfail" or case.get("framing") != "chunked" or not obs.get("wires"):
+            continue
+        exc = case.get("exc") if case.get("fail_after") is not None else None
+        oc = "ok" if exc is None else "oserror" if exc in ("OSError", "TimeoutError") else "exception"
+        h = ref_split_head(obs["wires"][0][0])
+        d = ref_dechunk(h[2]) if h else None
+        eof = d is not None and d[1] == b""
+        fails = bool(obs.get("cli", {}).get("exc"))
+        lines.append("wend " + oc)
+        impl.append((case, f"eof={b01(eof)} fails={b01(fails)}"))
+    outs = ctx.model(lines)
+    if outs is None:
+        return
+    for (case, i), o in zip(impl, outs):
+        ctx.compare(case, i, " ".join(o.split(" ")[:2]), "ClientRequest._write_bytes ending vs Aio.C02.writeBytesEnd")
+
+
 def replay(ctx, case):
+    if case.get("kind") in c02flow.KINDS:
+        with _Logging():
+            c02flow.oracle(ctx, case, c02flow.run_case(case))
+        return
     with tempfile.TemporaryDirectory(prefix="c02-") as tmpdir, _Logging():
         make_files(tmpdir)
         try:
